@@ -311,6 +311,9 @@ def check(ctx):
     row_wrappers(ctx, ld)
     headers_and_tables(ctx, ld)
     selection(ctx, ld)
+    from rules import independence
+    independence.r28_functions(ctx, [(LOAD + '.stripper', {}), (LOAD + '.stringer', {}), (LOAD + '.missing_values_extractor', {}),
+                                     (LOAD + '.limiter', {'count': 'number of rows delivered so far (the limit itself)'})])
     stream.r26_append_order(ctx)
     run.trusted += ['tabulator Stream yields one keyed row per data line in file order']
     run.not_decided += ['CSV fidelity (tabulator), inference results, header renaming format on concrete names',
